@@ -147,4 +147,45 @@ theorem writes_sum (r : Row) (hg : r.good = true) (lp : Loop) (hl : lp.ok = true
 theorem normSize_fst_snd (w h : Nat) :
     normView w h = if w = 0 ∨ h = 0 then (0, 0) else (w, h) := rfl
 
+/-- a write sequence ends `ok` or `ioError` -/
+theorem runWrites_res (f : Option Nat) (l : List Nat) :
+    (runWrites f l).1 = .ok ∨ (runWrites f l).1 = .ioError := by
+  cases f with
+  | none => rw [runWrites_none]; exact Or.inl rfl
+  | some k =>
+    by_cases h : l.sum ≤ k
+    · rw [runWrites_ok l k h]; exact Or.inl rfl
+    · rw [runWrites_fail l k (by omega)]; exact Or.inr rfl
+
+
+/-- the encode call's result and byte count are those of its writes, once it is not refused -/
+theorem encode_eq_runWrites (r : Row) (hr : r ∈ table) (he : r.encodable = true) (lp : Loop)
+    (w h : Nat) (fault : Option Nat)
+    (hs : r.supportsSize (normView w h).1 (normView w h).2 = true) :
+    (encode r lp w h fault).res = (runWrites fault (writes r.px lp (normView w h).1 (normView w h).2)).1 ∧
+    (encode r lp w h fault).bytes = (runWrites fault (writes r.px lp (normView w h).1 (normView w h).2)).2 := by
+  have hg := good_of_mem hr
+  unfold Row.good at hg
+  unfold encode
+  simp only [he, Bool.not_true, Bool.false_eq_true, if_false]
+  revert hs
+  generalize normView w h = s
+  obtain ⟨w', h'⟩ := s
+  intro hs
+  cases hpx : r.px with
+  | fixed bpp => exact ⟨rfl, rfl⟩
+  | block bytes bw bh => exact ⟨rfl, rfl⟩
+  | biPlanar p1 p2 sx sy =>
+    rw [hpx] at hg
+    simp only [Bool.and_eq_true, decide_eq_true_eq] at hg
+    have hc : biPlanarRefuses w' h' = false := by
+      unfold Row.supportsSize at hs
+      rw [hg.1.2, hg.2] at hs
+      unfold biPlanarRefuses
+      simp only [Bool.and_eq_true, decide_eq_true_eq] at hs
+      simp [hs.1, hs.2]
+    simp only [hc, Bool.false_eq_true, if_false]
+    exact ⟨trivial, trivial⟩
+
+
 end Dds.EncTotal
